@@ -238,6 +238,14 @@ impl<'a, K: KeyT, S: Sut<K>> Runner<'a, K, S> {
         self.stats.events += 1;
         let key = format!("{}:{}", ev["op"].as_str().unwrap_or("?"), ev["ret"]["t"].as_str().unwrap_or("?"));
         *self.stats.by_kind.entry(key).or_insert(0) += 1;
+        if ev["cb"].as_array().map_or(false, |a| !a.is_empty()) {
+            *self.stats.by_kind.entry("cb:nonempty".into()).or_insert(0) += 1;
+        }
+        if let Some(k) = ev["fault"]["kind"].as_str() {
+            if ev["fault"]["fired"] == json!(true) {
+                *self.stats.by_kind.entry(format!("fault:{k}")).or_insert(0) += 1;
+            }
+        }
         if let Some(pr) = ev["ret"]["b"]["t"].as_str() {
             *self.stats.by_kind.entry(format!("{}:b={}", ev["op"].as_str().unwrap_or("?"), pr)).or_insert(0) += 1;
         }
@@ -319,6 +327,7 @@ impl<'a, K: KeyT, S: Sut<K>> Runner<'a, K, S> {
             ev["live"] = json!(qalloc::live());
             ev["anomalies"] = json!(track::take_anomalies());
             let _ = ids;
+            *self.stats.by_kind.entry("drop:?".into()).or_insert(0) += 1;
             self.stats.events += 1;
             self.out.line(&ev);
         } else {
